@@ -98,12 +98,16 @@ func writeSVG(wg *sync.WaitGroup, path, lineStyle string) (chan<- []*sdf.Line2, 
 	wg.Add(1)
 	go func() {
 		defer wg.Done()
+		verifEv("wr.start", 3, 0, 0)
+		defer verifEv("wr.exit", 3, 0, 0)
 		for ls := range c {
+			verifEv("wr.recv", 3, len(ls), len(s.p0s))
 			for _, l := range ls {
 				s.Line(l[0], l[1])
 			}
 		}
 
+		verifEv("wr.eof", 3, len(s.p0s), 0)
 		if err := s.Save(); err != nil {
 			fmt.Printf("%s\n", err)
 			return
